@@ -2,7 +2,7 @@
     retired nameplate / mailbox.  Classification and timing rule (for EVERY
     number of sides and every list of moods); the counting part (one record per
     retirement, none otherwise, the status row) is quoted from UsageCount.v. *)
-From MW Require Import Base Store Monad Usage Server UsageFacts.
+From MW Require Import Base Store Monad Usage Server Websocket Service Inv Obs UsageFacts ProtoFacts UsageCount Inst_Params.
 
 (** nameplates: crowded (> 2 sides), else pruney, else happy (2 sides), else lonely *)
 Theorem C15_nameplate_result :
@@ -66,6 +66,51 @@ Theorem C15_nameplate_summary_defined :
     summarize_nameplate b app side_rows dt pruned = None <-> side_rows = [].
 Proof. exact nameplate_summary_none. Qed.
 Print Assumptions C15_nameplate_summary_defined.
+
+(** * one record per retirement (quoted by type from UsageCount.v; with a usage database) *)
+
+(** release writes one nameplate record exactly when it deletes the nameplate (the
+    last claim is released), computed from the nameplate's side rows; otherwise nothing *)
+Theorem C15_release_usage : ltac:(let t := type of release_usage in exact t).
+Proof. exact release_usage. Qed.
+Check C15_release_usage.
+Print Assumptions C15_release_usage.
+
+(** close writes, exactly when it deletes the mailbox, one record per nameplate
+    that pointed at it (the path defect D3 was about) and one for the mailbox,
+    computed after the closing side's mood has been recorded; otherwise nothing *)
+Theorem C15_close_usage : ltac:(let t := type of close_usage in exact t).
+Proof. exact close_usage. Qed.
+Check C15_close_usage.
+Print Assumptions C15_close_usage.
+
+(** every other command writes no nameplate, mailbox or status record (bind adds
+    one client-version row): objects still alive produce none *)
+Theorem C15_other_commands_write_nothing : ltac:(let t := type of other_cmd_usage in exact t).
+Proof. exact other_cmd_usage. Qed.
+Check C15_other_commands_write_nothing.
+Print Assumptions C15_other_commands_write_nothing.
+
+(** a sweep writes one record (pruned) per nameplate and per mailbox it deletes,
+    from their side rows before the sweep, and rewrites the single status row with
+    the boot time, the sweep time, the blur interval and the number of currently
+    subscribed connections *)
+Theorem C15_sweep_usage : ltac:(let t := type of sweep_usage in exact t).
+Proof. exact sweep_usage. Qed.
+Check C15_sweep_usage.
+Print Assumptions C15_sweep_usage.
+
+(** connects and disconnects write nothing *)
+Theorem C15_connect_disconnect_write_nothing : ltac:(let t := type of conn_events_usage in exact t).
+Proof. exact conn_events_usage. Qed.
+Check C15_connect_disconnect_write_nothing.
+Print Assumptions C15_connect_disconnect_write_nothing.
+
+(** bind writes one client-version row stamped with the blurred arrival time *)
+Theorem C15_bind_client_version : ltac:(let t := type of bind_effect in exact t).
+Proof. exact bind_effect. Qed.
+Check C15_bind_client_version.
+Print Assumptions C15_bind_client_version.
 
 Example C15_nonvacuous :
   umb_result (summarize_mailbox None "a" true
